@@ -33,7 +33,7 @@ TECHNIQUE = "metamorphic property-based testing: generated instants x enumerated
 RULE = (
     "Hypothesis draws a base instant (a DST transition of one of the zones or arbitrary) and offsets within +-14 h "
     "(second granularity near transitions) for source, two chained stored nodes, an independent stored node and "
-    "fresh_time (or none), plus 6 representation assignments; every (TZ, assignment) cell is run. Non-trivial = the cell "
+    "fresh_time (or none), plus 6 representation assignments (naive local, aware UTC, fixed offset, zoneinfo, or a bundled file store whose modified time is the mtime of a real file set with os.utime); every (TZ, assignment) cell is run. Non-trivial = the cell "
     "compares datetimes of different representations, or has a non-zero UTC offset, with two instants closer than the "
     "zone's offset (decision sensitive), or an instant inside a repeated (fall-back) hour. Distinct = SHA-1 of (instants, "
     "TZ, assignment)."
